@@ -409,7 +409,7 @@ def read_events(path):
 
 def trace_stage(run, name, driver, spec="TraceLib.tla", cfg="TraceLib.cfg", profile="dev", extra=None,
                 nontrivial=lambda e: True, session_key=None, timeout=1800, sample_every=None, xmx="2g",
-                trace_path=None, keyfn=None):
+                trace_path=None, keyfn=None, ignore_checks=()):
     """driver -> ndjson -> TLC trace validation; failures are routed through run.fail."""
     wd = run.sub(name)
     trace = trace_path or os.path.join(wd, "trace.ndjson")
@@ -429,7 +429,94 @@ def trace_stage(run, name, driver, spec="TraceLib.tla", cfg="TraceLib.cfg", prof
     for (gl, op, checks) in res["rejects"]:
         rec = events[gl - 1]
         for c in checks:
+            if c in ignore_checks:
+                continue
             run.fail(dict(stage=name, op=op, check=c, record=rec, line=gl, tags=dig(rec, "in.tags") or []))
     run.stage(name, kind="trace-validation", driver=driver, spec=spec, events=len(events),
               rejected=len(res["rejects"]), states=res["states"])
     return events, res
+
+
+# --------------------------------------------------------------------------
+# R1: world-model exploration against claims recorded from the implementation
+# --------------------------------------------------------------------------
+VIOL_RE = re.compile(r"Error: Invariant (\w+) is violated")
+
+
+def parse_violation(out):
+    """Returns (invariant, cfg index, trace text) of the first reported violation, or None."""
+    m = VIOL_RE.search(out)
+    if not m:
+        return None
+    tail = out[m.start():]
+    c = re.search(r"\bcfg = (\d+)", tail)
+    end = tail.find("states generated")
+    return m.group(1), (int(c.group(1)) if c else None), tail[:end if end > 0 else 6000][-6000:]
+
+
+def world_stage(run, name, driver, spec, cfg, extra=None, slim=("id", "policy", "tasks", "supply"), env=None,
+                timeout=3000, witness=None, max_rounds=3, profile="dev", workers=None):
+    """driver -> batch of systems with claims -> TLC explores the world model.
+    witness: None, or function(record) -> set of expected witness keys (strings "id task")."""
+    wd = run.sub(name)
+    full = os.path.join(wd, "batch.ndjson")
+    run_driver(driver, full, run.tier, run.seed, profile=profile, extra=extra)
+    recs = read_events(full)
+    if not recs:
+        raise ToolError("driver %s produced no systems" % driver)
+    for r in recs:
+        run.count({k: r[k] for k in slim if k in r}, bool(r.get("nontrivial", True)))
+    for r in recs[:: max(1, len(recs) // 3)][:3]:
+        run.sample({k: r[k] for k in ("id", "policy", "variant", "tasks", "supply") if k in r})
+    remaining = list(recs)
+    witnessed = set()
+    explored = 0
+    for rnd in range(max_rounds):
+        batch = os.path.join(wd, "tlc-batch-%d.ndjson" % rnd)
+        with open(batch, "w") as f:
+            for r in remaining:
+                f.write(json.dumps({k: r[k] for k in slim if k in r}) + "\n")
+        e = {"BATCH": batch, "TRACKFIN": "1" if witness else "0"}
+        if env:
+            e.update(env)
+        rc, out = tlc_mc(os.path.join(SPEC, "mc"), spec, cfg, wd, "%s-%d" % (name, rnd), timeout=timeout, env_extra=e,
+                         workers=workers, coverage=(run.tier == "thorough" and rnd == 0))
+        gen, dist = parse_states(out)
+        run.cov["states"] += dist
+        run.cov["transitions"] += gen
+        for ln in out.splitlines():
+            m = re.match(r'^"?WITNESS (\d+) (\d+)"?$', ln.strip())
+            if m:
+                witnessed.add("%s %s" % (m.group(1), m.group(2)))
+        v = parse_violation(out)
+        if v is None:
+            if "Model checking completed. No error has been found." not in out:
+                raise ToolError("TLC failed on %s (rc=%d):\n%s" % (spec, rc, out[-3000:]))
+            explored = len(remaining)
+            break
+        inv, ci, trace = v
+        if ci is None or ci < 1 or ci > len(remaining):
+            raise ToolError("cannot attribute TLC violation:\n" + trace[-3000:])
+        bad = remaining.pop(ci - 1)
+        run.fail(dict(stage=name, op=bad.get("policy", "") + "_" + bad.get("variant", ""), check=inv, record=bad,
+                      detail="TLC counterexample (schedule) in replay file", trace=trace,
+                      tags=bad.get("tags", [])))
+        if not remaining:
+            break
+    else:
+        log("more than %d violating systems; the rest of the batch was not explored" % max_rounds)
+    run.cov["traces_validated_against_impl"] += len(recs)
+    if witness:
+        # witness(r) = list of alternatives; of each alternative (a set of "id task" keys) one must be witnessed
+        nexp = 0
+        for r in recs:
+            if any(f.get("record") is r for f in run.failures):
+                continue
+            for alt in witness(r):
+                nexp += 1
+                if not (set(alt) & witnessed):
+                    run.fail(dict(stage=name, op=r.get("policy", "") + "_" + r.get("variant", ""), check="Attained", record=r,
+                                  detail="no schedule attains the bound of task(s) %s" % sorted(alt), tags=r.get("tags", [])))
+        run.stage(name + "-witness", expected=nexp, witnessed=len(witnessed))
+    run.stage(name, kind="world-model", driver=driver, spec=spec, systems=len(recs), explored=explored)
+    return recs
